@@ -186,6 +186,8 @@ type seqStats struct {
 	// the classes added with the odd strings / derived paths / sizes
 	oddString, emptyString, twins, twinsInList, oddHit     bool
 	bigList, repeatInList, bigNotif, longPath, crowd, many bool
+	// container shapes (atomic.go)
+	atoms atomStats
 }
 
 func (s seqStats) labels() []string {
@@ -229,7 +231,7 @@ func (s seqStats) labels() []string {
 	add(s.longPath, "path-with-6plus-elements")
 	add(s.crowd, "path-registered-by-3plus-clients")
 	add(s.many, "50plus-live-registrations")
-	return l
+	return append(l, s.atoms.labels()...)
 }
 
 // sizeFlags notes the size/alphabet classes of the registered paths of a scenario.
@@ -336,6 +338,15 @@ func runSeq(sc *Scenario, open map[string]bool) (st seqStats, err error) {
 			count[h.client]++
 		}
 		an := mod.analyse(entries)
+		if op.Notif != nil {
+			var certain [][]string
+			for k := range mod.live {
+				if mod.state(k) == regYes {
+					certain = append(certain, unkey(k.path))
+				}
+			}
+			st.atoms.see(op.Notif, op.Prefix, entries, certain, false)
+		}
 		ids := map[int]bool{}
 		for c := range an {
 			ids[c] = true
